@@ -95,7 +95,15 @@ def cases(draw, tier):
             ["none", "none", "obs", "samp", "both"]))))]
         operands.append(draw(operand(values, draw(st.sampled_from(
             ["none", "none", "obs", "samp", "both"])), operands[0])))
+    if form == "pair" and draw(st.sampled_from([False, False, True])):
+        # values that need all 53 bits, and tiny ones (one addition per cell
+        # is exact in any order)
+        for o_ in operands:
+            o_["rows"] = draw(gen.matrices(len(o_["obs"]), len(o_["samp"]),
+                                           "frac"))
+        values = "frac"
     return {"operands": operands, "form": form, "sample": sample,
+            "values": values,
             "observation": obs, "mdf": mdf,
             # the receiver merged with itself (the same object): every cell
             # doubles
@@ -139,12 +147,40 @@ def model_md_f(name):
     return md_function(name)
 
 
+class _Quiet:
+    def cls(self, *a, **k):
+        pass
+
+    def skip(self, *a, **k):
+        pass
+
+    def nt(self, *a, **k):
+        pass
+
+
 def check(case, rec):
-    from biom.exception import TableException
     tabs = [gen.build(s, rec=rec) for s in case["operands"]]
     if case.get("self_merge"):
         tabs = [tabs[0], tabs[0]]
         rec.cls("merged-with-itself")
+    _check(case, rec, tabs)
+    if len(case["operands"][0]["obs"]) % 3 == 0 and \
+            not any(t.is_empty() for t in tabs):
+        # the same operands merged again after in-place edits: the result is
+        # about what they hold now (nothing remembered from the first merge)
+        for k, t in enumerate(tabs[:2]):
+            t.transform(lambda v, i, md: v * 2, inplace=True,
+                        axis="observation" if k == 0 else "sample")
+        rec.cls("merged-again-after-in-place-edits")
+        try:
+            _check(case, _Quiet(), tabs)
+        except Violation as v:
+            raise Violation(v.sub, "merged again after in-place edits "
+                            "(values doubled): " + v.msg)
+
+
+def _check(case, rec, tabs):
+    from biom.exception import TableException
     snaps = [observe.snapshot(t) for t in tabs]
     refs = [Ref.from_snapshot(s) for s in snaps]
     smode, omode, mdf = case["sample"], case["observation"], case["mdf"]
@@ -223,7 +259,7 @@ def check(case, rec):
     if smode == "union" and omode == "union":
         tot = sum(x for row in got["rows"] for x in row)
         want = sum(x for rf in refs for row in rf.rows for x in row)
-        if tot != want:
+        if tot != want and case.get("values") != "frac":
             bad("grand-total", "%r != sum of operand totals %r" % (tot, want))
 
     # metadata
@@ -295,3 +331,21 @@ REGRESSIONS = [
      "form": "pair", "sample": "union", "observation": "union",
      "mdf": "default"},
 ]
+
+
+def _many(k):
+    """The list form with many operands (operand counts past 32 / 64)."""
+    ops_ = []
+    for j in range(k):
+        obs = ["O%d" % ((j + q) % 6) for q in range(2)]
+        samp = ["S%d" % ((j * 2 + q) % 5) for q in range(2)]
+        ops_.append({"obs": obs, "samp": samp,
+                     "rows": [[float(j + 1), 0.0], [float(j % 3), 2.0]],
+                     "type": None, "form": "dense", "history": [],
+                     "obs_md": None, "samp_md": None})
+    return {"operands": ops_, "form": "list", "sample": "union",
+            "observation": "union", "mdf": "default", "values": "int",
+            "self_merge": False}
+
+
+REGRESSIONS += [_many(34), _many(66)]
